@@ -190,13 +190,54 @@ def rule_identity(ctx):
     pn = [n for n in nodes if n.kind == "stmt" and isinstance(n.ast, ast.Assign) and norm.text(n.ast.targets[0]) == "progress"]
     ctx.ob("otherwise progress is None", len(pn) == 1 and norm.text(pn[0].ast.value) == "None" and ("truth", "msg.receive_progress", None, False) in mf.at(pn[0]), "changed", om.fn.loc())
     call = [(n, c) for n in nodes for c in node_calls(n) if call_name(c) == "txaio.as_future" and c.args and norm.text(c.args[0]) == "endpoint.fn"]
-    ok = len(call) == 1 and [norm.text(a) for a in call[0][1].args[1:]] == ["*invoke_args"] and [norm.text(k.value) for k in call[0][1].keywords if k.arg is None] == ["invoke_kwargs"]
-    ctx.ob("endpoint invoked with (*invoke_args, **invoke_kwargs)", ok, "endpoint call changed", om.fn.loc())
-    ia = [norm.text(n.ast.value) for n in nodes if n.kind == "stmt" and isinstance(n.ast, ast.Assign) and norm.text(n.ast.targets[0]) == "invoke_args"]
-    ctx.ob("invoke_args = (endpoint.obj,)? + tuple(msg.args)", sorted(ia) == sorted(["(endpoint.obj,)", "tuple()", "invoke_args + tuple(msg.args)"]), f"{ia}", om.fn.loc())
-    ik = [norm.text(n.ast.value) for n in nodes if n.kind == "stmt" and isinstance(n.ast, ast.Assign) and norm.text(n.ast.targets[0]) == "invoke_kwargs"]
-    ctx.ob("invoke_kwargs from msg.kwargs", len(ik) == 1 and "msg.kwargs" in ik[0], f"{ik}", om.fn.loc())
-    det = [n for n in nodes if n.kind == "stmt" and isinstance(n.ast, ast.Assign) and norm.text(n.ast.targets[0]) == "invoke_kwargs[endpoint.details_arg]"]
+    ctx.require(len(call) == 1, "Invocation arm: the endpoint call txaio.as_future(endpoint.fn, ...) not found")
+    ec = call[0][1]
+    star = [a for a in ec.args[1:] if isinstance(a, ast.Starred)]
+    dstar = [k for k in ec.keywords if k.arg is None]
+    ok = len(ec.args) == 2 and len(star) == 1 and isinstance(star[0].value, ast.Name) and len(dstar) == 1 and isinstance(dstar[0].value, ast.Name) and len(ec.keywords) == 1
+    ctx.ob("endpoint invoked with (*<positional>, **<keywords>) only", ok, "endpoint call changed", om.fn.loc(ec))
+    if ok:
+        A, K = star[0].value.id, dstar[0].value.id
+        # what the endpoint receives, cell by cell over (bound object, caller args, caller kwargs) -- names and spelling are irrelevant
+        from ..core.tiny import Tiny, Sym
+
+        def block_of(root, target):
+            for x in ast.walk(root):
+                for fld in ("body", "orelse", "finalbody"):
+                    blk = getattr(x, fld, None)
+                    if isinstance(blk, list) and any(any(y is target for y in ast.walk(st_)) and not isinstance(st_, (ast.If, ast.For, ast.While, ast.Try, ast.With, ast.FunctionDef))
+                                                     for st_ in blk):
+                        return blk
+            return None
+        blk = block_of(om.fn.node, ec)
+        ctx.require(blk is not None, "Invocation arm: statement block of the endpoint call not found")
+        upto = [i for i, st_ in enumerate(blk) if any(y is ec for y in ast.walk(st_))][0]
+
+        def writes(st_):
+            return any(isinstance(y, ast.Name) and y.id in (A, K) and isinstance(y.ctx, ast.Store) for y in ast.walk(st_)) or \
+                any(isinstance(y, ast.Subscript) and isinstance(y.ctx, ast.Store) and norm.text(y.value) in (A, K) for y in ast.walk(st_))
+        prep = [st_ for st_ in blk[:upto] if writes(st_)]
+        problems = []
+        try:
+            for obj in (None, Sym("obj"), Sym("obj", truthy=False)):
+                for args in (None, [], [Sym("a0")], [Sym("a0"), Sym("a1", truthy=False)]):
+                    for kw in (None, {}, {"k": Sym("v")}):
+                        t = Tiny({"endpoint.obj": obj, "msg.args": args, "msg.kwargs": kw, "endpoint.details_arg": None, "msg.receive_progress": False})
+                        t.run(prep)
+                        want_a = ([obj] if obj is not None else []) + list(args or [])
+                        want_k = dict(kw or {})
+                        got_a, got_k = t.env.get(A), t.env.get(K)
+                        if not (isinstance(got_a, list) and len(got_a) == len(want_a) and all(x is y for x, y in zip(got_a, want_a))):
+                            problems.append(f"bound object {obj}, caller args {args}: endpoint gets positional {got_a}, expected {want_a}")
+                        if not (isinstance(got_k, dict) and got_k == want_k):
+                            problems.append(f"caller kwargs {kw}: endpoint gets keywords {got_k}, expected {want_k}")
+            ctx.ob("the endpoint receives (bound object if any) + exactly the caller's args, and exactly the caller's kwargs [36 cells]", not problems,
+                   "; ".join(problems[:2]), om.fn.loc(ec))
+        except AnalysisError as e:
+            raise AnalysisError(f"[C10.4-reply-identity-and-arguments] argument preparation outside the modelled subset: {e}")
+    else:
+        K = "invoke_kwargs"
+    det = [n for n in nodes if n.kind == "stmt" and isinstance(n.ast, ast.Assign) and norm.text(n.ast.targets[0]) == f"{K}[endpoint.details_arg]"]
     ctx.ob("call details only when the endpoint asked for them", len(det) == 1 and ("truth", "endpoint.details_arg", None, True) in mf.at(det[0]), "details injected unconditionally", om.fn.loc())
     ee = [n for n in nodes if any(norm.text(c.func) == "self._message_from_exception" for c in node_calls(n))]
     ctx.ob("undecryptable INVOCATION answered with an ERROR, endpoint not called",
